@@ -7,6 +7,21 @@ BASE_NOTE = ("Trusted: Coq 8.16.1 kernel (full .vo build, Print Assumptions audi
              "the hand-written Gallina model is tied to /repo by the differential correspondence run (Rust harness built against /repo's working tree with "
              "--cfg rbx_dom_verif + the model extracted with ExtrOcamlBasic only), whose strength is bounded by the generator (distribution in the evidence). ")
 CLAIMED = {
+ "C01": ("Proved about the executable model of rbx_binary (Model/BinValues.v, BinFile.v): per wire type, what the column encoder writes the column decoder reads back bit for bit and leaves the rest of the chunk untouched "
+         "(Bool, Int32, Int64, Float32 incl. every NaN payload, Enum, BrickColor, Vector2, Vector3, Color3, UDim, Ref through the referent numbering, Ray, NumberRange, Faces, Axes, SecurityCapabilities), the widening columns, "
+         "the model's wire-id tables equal the tables regenerated from types.rs; the explicit-stack loop of add_instances yields exactly the post-order of the chosen non-overlapping subtrees (fuel 3*size+3); chunk framing "
+         "(compressed under the law decompress(compress x) = x) and the file header round-trip; computed whole-file round trip of a sample DOM; refutation witnesses for the pre-repair arms. The forest-level theorem for arbitrary DOMs and "
+         "the remaining column types are NOT proved: they are decided per case by the binfile differential correspondence (file bytes identical for CompressionType::None, de-framed chunk payloads identical for LZ4/Zstd, decoded DOMs "
+         "identical) plus an implementation-side round-trip oracle that permits exactly the normalisations listed in the property.", "5/C01, A1",
+         "Hash iteration orders, Color3->Color3uint8 quantisation and blake3 hashes are parameters of the model supplied per case from the implementation; lz4/zstd are not modelled."),
+ "C07": ("Proved: the value a class column takes from an instance is a function of the instance's property MAP (any two iteration orders of the same map give the same column value); computed: saving what was loaded from a sample file "
+         "reproduces it byte for byte. The whole-file statement is NOT proved; it is exercised on the implementation for BOTH formats: each generated DOM is rebuilt with fresh Refs and shuffled property insertion and must serialize "
+         "to identical bytes / text, save(load(save d)) must be a fixed point, and the same cases serialized in a SECOND PROCESS (other hash seeds) must give the same bytes / text.", "5/C07, 6/F14",
+         "PARTIAL: determinism is a statement about hash-map iteration order, exercised not proved; the model reproduces the implementation's bytes under the observed orders."),
+ "C08": ("Proved on the model: an instance carrying the canonical property keeps its own value in the class column, also under an alias spelling, and an instance carrying no spelling gets the column default, never a neighbour's value; "
+         "computed on a three-descriptor database that each instance alone and both sibling orders serialize and read back their own colour (the shape that failed before 73fe0ea9). Totality / permutation invariance for arbitrary "
+         "same-class sets is NOT proved: decided per case by the binfile correspondence on same-class sets plus the implementation oracle that serializes every sibling permutation (<= 4 instances), requires success iff each instance "
+         "succeeds alone, and checks own values / defaults after reading back.", "5/C08", ""),
  "C02": ("Proved about the executable model of rbx_xml (Model/XmlEvents, XmlValues, XmlFile): character data survives writer -> emitter -> parser -> reader for every string (CDATA switch, `]]>` splitting, coalescing); "
          "decimal text of every integer width and base64 read back exactly; per-type round trips read_xml(channel(write_xml v)) = v for String, Bool, Int32, Int64, Enum, BinaryString, Float32/64 (under the stated Display/FromStr law), "
          "Vector3, BrickColor->Int32; the Name element of a class without a Name descriptor is read and kept; an explicit new value survives beside a migrating legacy property; refutation: Content::Object panics the writer. "
@@ -47,7 +62,7 @@ CLAIMED = {
  "C12": ("UniqueId uniqueness is part of `Rep`/`WF` (NoDup of ids, id set = ids held) and of the refinement lemmas; implementation compared with the model on histories with colliding ids.", "5/C12",
          "fetch_add atomicity of UniqueId::now is hardware/runtime, exercised not proven."),
  "C13": ("What a proof can carry: the decoder models make every Rust panic site an explicit `Panic` outcome and the models' loops have explicit fuel, so no-panic / termination are statements over all byte strings "
-         "(attribute decoder: proven; binary decoder: correspondence of outcome classes on mutated files, theorems in progress); elementary laws of truncation, reader delivery and sink failure are proved in Properties/C13.v. "
+         "(attribute decoder: attr_decode_total; binary decoder: decode_file_total — for every database passing the C16 coherence check, every allocation limit and every inflate oracle the modelled from_reader returns a DOM or an error on EVERY byte string, never Panic, never OutOfFuel; its outcome class and decoded DOM are compared with the implementation on mutated and truncated files); elementary laws of truncation, reader delivery and sink failure are proved in Properties/C13.v. "
          "What lives in std::io adapters, xml-rs and the process (reader delivery, sink faults, stack depth, allocation sizes) is EXERCISED on the implementation by the fault harness: every truncation offset of a fixed set of "
          "valid files in all formats (exhaustive), 1-byte / random / Interrupted readers, a failing sink at every output offset (exhaustive), ~2*10^5 mutations with a panic hook, a hang watchdog, an allocation probe and child processes.",
          "5/C13", "PARTIAL BY NATURE: the reader-delivery, sink-fault, XML-decoder, stack and allocation clauses are implementation-side exercise, not theorems; allocation-site keys depend on the build profile."),
